@@ -46,18 +46,19 @@ type Endpoint struct {
 	C    *netsim.MemConn
 	Name string
 
-	mu      sync.Mutex
-	got     []byte
-	keep    bool
-	n       int
-	bad     int // first offset at which received content deviates from Expect (-1 none)
-	expect  func(off int) byte
-	eof     bool
-	rerr    string
-	writes  []*WriteResult
-	closed  bool
-	queue   []queued
-	writing bool
+	mu         sync.Mutex
+	got        []byte
+	keep       bool
+	n          int
+	bad        int // first offset at which received content deviates from Expect (-1 none)
+	expect     func(off int) byte
+	eof        bool
+	rerr       string
+	writes     []*WriteResult
+	closed     bool
+	queue      []queued
+	writing    bool
+	closeAfter bool
 }
 
 // NewEndpoint starts consuming c. expect (optional) is the content expected at each
@@ -126,7 +127,11 @@ func (e *Endpoint) writeLoop() {
 		e.mu.Lock()
 		if len(e.queue) == 0 {
 			e.writing = false
+			ca := e.closeAfter
 			e.mu.Unlock()
+			if ca {
+				e.Close()
+			}
 			return
 		}
 		q := e.queue[0]
@@ -140,6 +145,15 @@ func (e *Endpoint) writeLoop() {
 		}
 		e.mu.Unlock()
 	}
+}
+
+// WriteThenClose queues b and closes the endpoint as soon as the Write has returned (the
+// close races with the delivery of the last write, as in "write everything, then close").
+func (e *Endpoint) WriteThenClose(b []byte) {
+	e.mu.Lock()
+	e.closeAfter = true
+	e.mu.Unlock()
+	e.StartWrite(b)
 }
 
 // StartWrites queues several writes (an application that writes its payload in pieces
